@@ -138,6 +138,31 @@ CLAIMED = {
              'root/suffix joins (absolute suffix escapes the root) are a known finding (D6).',
         design='DESIGN.md section 5, C12',
         note='Known finding D6 (6 join sites) is listed in known_findings.json.'),
+    'C09': dict(
+        technique='configuration-obligation analysis of the shlex lexer (attribute writes on the constructed object '
+                  'along every path); decision table of quoting routing; folded delimiter constants vs literal '
+                  'offsets; typestate of the token stream for lexer errors',
+        text='The lexer that tokenises test-case source is constructed in posix mode with whitespace splitting, no '
+             'comment characters and no escape characters on every path, and every lexer of the stream comes from that '
+             'constructor; a hard-quoted token becomes one constant and is never searched for symbol references, every '
+             'other token is; literal offsets equal the folded delimiter lengths; an unterminated quote is remembered '
+             'and raised as TokenSyntaxError by the next consume, and every handler of it reports a syntax error.',
+        design='DESIGN.md section 5, C09',
+        note='Only lexer configuration and quoting routing are decided; token boundaries and here-document bodies are '
+             'value-level.'),
+    'C18': dict(
+        technique='handler-table extraction by exception-path analysis; evaluator sweep by resolved callee with '
+                  'handler-coverage check (fixture positive control); visitor totality (thorough)',
+        text='The instruction-parser dispatcher converts argument errors to syntax errors and everything else to the '
+             'implementation-error exception; the parse-error handler is total; every call in the source that hands '
+             'non-constant text to a Python evaluator (eval, re.compile, Pattern.sub template, PurePath.match, '
+             'Path.glob) is enclosed - in its function or at all its call sites - by handlers covering what the '
+             'evaluator raises on ill-formed text and converting it to the repository\'s error channel; the integer '
+             'evaluator maps every exception class of eval to "not an integer" and the integer / regex validators '
+             'report it in the applicable step.',
+        design='DESIGN.md section 5, C18',
+        note='Decides the known evaluator kinds listed in the checker (table EVALUATORS); "whatever text" as such is not '
+             'decided.'),
 }
 
 NOT_APPLICABLE = {
